@@ -233,7 +233,7 @@ def process_runs(mon, rng):
                 ("behave.ini", "[behave]\ntags = %s\n" % other)
             with open(os.path.join(proj.root, fname), "w") as fh:
                 fh.write(body)
-        res = proj.run(case["args"] + extra + ["-f", "plain"])
+        res = proj.run(case["args"] + extra + ["-f", "plain"], environment=RB.pick_environment(rng, mon))
     finally:
         proj.close()
     if res.get("timeout"):
